@@ -30,7 +30,7 @@ def gen_binning(rng, num_bins=None, closed=None):
     return Binning(gen_edges(rng, num_bins), closed=closed)
 
 
-def gen_count_array(rng, num_bins, num_patches, auto, sparsity=None, integer=None):
+def gen_count_array(rng, num_bins, num_patches, auto, sparsity=None, integer=None, special=False):
     """(bins, P, P) array of pair counts.  auto: upper triangle only (as the
     measurement produces).  sparsity: probability of a zero patch pair."""
     sparsity = rng.choice([0.0, 0.3, 0.8, 1.0], p=[0.4, 0.3, 0.25, 0.05]) if sparsity is None else sparsity
@@ -55,6 +55,10 @@ def gen_count_array(rng, num_bins, num_patches, auto, sparsity=None, integer=Non
         if rng.random() < 0.5:
             k, m = rng.integers(0, num_patches, 2)
             arr[:, k, m] = -np.abs(arr[:, k, m])
+    if special and integer and rng.random() < 0.4:
+        # whole-number counts with an infinite or astronomically large entry (inf == floor(inf))
+        i, j = rng.integers(0, num_patches, 2)
+        arr[int(rng.integers(num_bins)), min(i, j), max(i, j)] = float(rng.choice([np.inf, -np.inf, 3e19, 2.0**63, 1e300]))
     if auto:
         arr = np.triu(arr)
     return arr
